@@ -95,7 +95,7 @@ PROPS = {
                 rule="TLC enumerates EVERY history of {write DDR, write DR, external input} x 4 values to depth 5 on one port (248,832; thorough depth 6 x 3 values) and every two-port interleaving to depth 3 (4 in thorough); each is replayed into the real Bus (slots mapped over all 11 ports and port pairs), plus seeded random length-20..60 histories with arbitrary bytes and invalid port numbers; per event: DR read-back, announcement rule, time stamps, all other ports and all other memory unchanged", assumptions=COMMON_ASSUME),
     "C17": dict(lemmas=[dict(module="TimerLemma.tla", runs=[[c, i, v, l] for c in ("--cinit=ConstInit8", "--cinit=ConstInit64", "--cinit=ConstInit8192")
                                                              for (i, v, l) in (("--init=Init", "--inv=IndInv", "--length=0"), ("--init=IndInit", "--inv=IndInv", "--length=1"), ("--init=IndInit", "--inv=Floor", "--length=0"))])],
-                mc=[dict(module="MC_Timer.tla", cfg="MC_Timer.cfg", cfg_q="MC_Timer_q.cfg", workers=14, timeout=1800)], drivers=[dict(name="timer", module="TraceBus.tla", args=["timer-replay", "--tier", "{tier}", "--out", "{out}", "--threads", "{threads}", "--seed", "{seed}"])],
+                mc=[dict(module="MC_Timer.tla", cfg="MC_Timer.cfg", cfg_q="MC_Timer_q.cfg", workers=14, timeout=1800), dict(module="MC_System.tla", cfg="MC_System.cfg", workers=6)], drivers=[dict(name="timer", module="TraceBus.tla", args=["timer-replay", "--tier", "{tier}", "--out", "{out}", "--threads", "{threads}", "--seed", "{seed}"])],
                 count_traces="histories",
                 rule="seeded histories: all 256 TCR values, TCORA/TCORB/TCNT start values (boundary + random; the property's exclusions respected, violated now and then = 'open' class), charges from {1,2,3,7,8,9,15,16,17,63,64,65,100,128,200,255} + random 1..255, interleaved CPU writes to TCR (clock change / same clock), TCNT, TCORx, TCSR; the set of prescaler phases consistent with the observations is tracked by the spec, an observation no phase explains is a violation", assumptions=COMMON_ASSUME),
     "C11": dict(mc=[dict(module="MC_Loader.tla", cfg="MC_Loader.cfg", workers=14)], drivers=[dict(name="elf", module="TraceElf.tla", args=["elf-load", "--tier", "{tier}", "--out", "{out}", "--threads", "{threads}", "--seed", "{seed}"])],
@@ -103,13 +103,14 @@ PROPS = {
     "C12": dict(mc=[dict(module="MC_Loader.tla", cfg="MC_Loader.cfg", workers=14)], drivers=[dict(name="elf", module="TraceElf.tla", args=["elf-load", "--tier", "{tier}", "--out", "{out}", "--threads", "{threads}", "--seed", "{seed}"])],
                 rule="as C11, with .stack sizes {0,1,3,4,5,0x400,0xFFFF,0x10000,random}, symbol tables of 1-24 (200) symbols with ___exit first / last / anywhere and near-miss names, argument strings of 0-10 (32) words with runs of blanks/tabs, leading/trailing white space, words up to 60 (200) bytes; ER0/1/2/5/7, exit address, argv table and strings, layout predicates", assumptions=COMMON_ASSUME),
     "C10": dict(gen=[dict(name="sched", module="MC_Intc.tla", cfg="Gen_Irq_t.cfg", cfg_q="Gen_Irq_q.cfg")],
-                mc=[dict(module="MC_Intc.tla", cfg="MC_Intc.cfg")],
+                mc=[dict(module="MC_Intc.tla", cfg="MC_Intc.cfg"), dict(module="MC_System.tla", cfg="MC_System.cfg", workers=6), dict(module="MC_System.tla", cfg="MC_System_live.cfg", workers=1)],
                 drivers=[dict(name="irq", module="TraceRun.tla", args=["irq-replay", "--tier", "{tier}", "--in", "{sched}", "--out", "{out}", "--threads", "{threads}", "--seed", "{seed}"])],
                 count_traces="histories",
                 rule="TLC enumerates EVERY placement of <= 3 (4) requests over 3 vector slots among 9 (12) instruction boundaries; each schedule is replayed on a real guest program (counted arithmetic loop; handlers push, log their vector number, pop, RTE; some handlers TRAPA into nested trap handlers; slots mapped over all vectors 1-63; code / stack / data in on-chip RAM and DRAM; runs that start masked), stepping loop = try_interrupt + fetch/exec; every boundary (acc) and every instruction (step) is validated against the spec, pending multiset tracked, final 'end' (nothing pending, entered = requested per vector) and 'cmp' against the interrupt-free run of the same program; plus seeded random longer schedules", assumptions=COMMON_ASSUME),
     "C13": dict(lemmas=[dict(module="RunLemma.tla", runs=[["--cinit=ConstInit", "--init=Init", "--inv=IndInv", "--length=0"],
                                                            ["--cinit=ConstInit", "--init=IndInit", "--inv=IndInv", "--length=1"]])],
-                mc=[dict(module="MC_Run.tla", cfg="MC_Run.cfg", workers=8), dict(module="MC_Run.tla", cfg="MC_Run_live.cfg", workers=1)], drivers=[dict(name="run", module="TraceRun.tla", args=["run-program", "--tier", "{tier}", "--out", "{out}", "--seed", "{seed}"]),
+                mc=[dict(module="MC_Run.tla", cfg="MC_Run.cfg", workers=8), dict(module="MC_Run.tla", cfg="MC_Run_live.cfg", workers=1),
+                    dict(module="MC_System.tla", cfg="MC_System.cfg", workers=6), dict(module="MC_System.tla", cfg="MC_System_live.cfg", workers=1)], drivers=[dict(name="run", module="TraceRun.tla", args=["run-program", "--tier", "{tier}", "--out", "{out}", "--seed", "{seed}"]),
                                                                   dict(name="examples", module="TraceRun.tla", args=["example-run", "--tier", "{tier}", "--out", "{out}", "--repo", "{repo}"])],
                 count_traces="runs", tv_timeout=2400,
                 rule="guest programs laid out as ELF files, loaded by the real elf::load and executed by the REAL Cpu::run in-process: port set-up + loop + calls + write system calls with awkward bytes; five programs ending in an instruction that must be rejected (ret err); counted loops; timer + set_handler + interrupt + port scenario; a long loop crossing the first sync threshold (three thresholds in thorough). One event per run-loop iteration (registers, whole-memory diff, charged states, state_sum, pending queue, messages, console); TLC executes the same program with the spec (long runs: accounting / sync / timer / continuity projection). Each program is run 5 times (2 of them under 24 busy host threads) and the run summaries (final state, state count, iteration count, hashes of the per-iteration (pc, charge) sequence and of the message sequence) must be equal", assumptions=COMMON_ASSUME),
